@@ -76,3 +76,7 @@ N("c16-n-exactly-bytes-first", "C16", BUF, RX, "                retval = self._b
 
 # from seeded change C16/h (round 4)
 M("c16-receive-default-codec-strips-signature", "C16", TXT, "TextReceiveStream", "    encoding: InitVar[str] = \"utf-8\"\n    errors: InitVar[str] = \"strict\"\n    _decoder", "    encoding: InitVar[str] = \"utf-8-sig\"\n    errors: InitVar[str] = \"strict\"\n    _decoder", ["R16-e"])
+
+# from seeded changes C16/i, C16/j (round 5)
+M("c16-buffered-stream-unwraps-buffered-argument", "C16", BUF, "BufferedByteStream.__init__", "        super().__init__(stream)\n", "        if isinstance(stream, BufferedByteStream):\n            stream = stream._stream\n\n        super().__init__(stream)\n", ["R16-f"])
+M("c16-decoder-from-class-default", "C16", TXT, "TextReceiveStream.__post_init__", "        decoder_class = codecs.getincrementaldecoder(encoding)", "        decoder_class = codecs.getincrementaldecoder(self.encoding)", ["R16-d"])
